@@ -195,6 +195,17 @@ class PlacementHandler(object):
         self.config = local_config['config']
 
     def __call__(self, environ, start_response):
+        try:
+            return self._handle(environ, start_response)
+        except webob.exc.HTTPError as exc:
+            # An error that is raised instead of returned reaches the
+            # microversion middleware as an exception: it gets the
+            # openstack-api-version header there, but the Vary header is
+            # only added to responses, so add it here.
+            exc.headers.add('vary', 'openstack-api-version')
+            raise
+
+    def _handle(self, environ, start_response):
         # set a reference to the oslo.config ConfigOpts on the RequestContext
         context = environ['placement.context']
         context.config = self.config
